@@ -78,7 +78,11 @@ def _guarded(fn, name):
     @functools.wraps(fn, assigned=('__name__', '__doc__'), updated=())
     def call(*a, **k):
         try:
-            return fn(*a, **k)
+            res = fn(*a, **k)
+            if type(res).__name__ == 'ndarray' and res.dtype == object and _has_symbolic(list(res.flat)[:8]):
+                # numpy wrapped a symbolic stand-in into an object array instead of refusing it: nothing downstream can be trusted
+                raise core.Unsupported(f'{name}() of numpy wrapped a symbolic operand into an object array')
+            return res
         except (core.Unsupported, core.PathLimit, core.Infeasible):
             raise
         except Exception as e:  # noqa: BLE001
@@ -132,10 +136,11 @@ def proxies():
     import numpy as _np
     from .pysym import SymReal
     pi = SymReal(PI)
-    npo = {'pi': pi, 'sin': _sym_fn(_np.sin, SIN, 'sin'), 'cos': _sym_fn(_np.cos, COS, 'cos'), 'exp': _sym_fn(_np.exp, EXP, 'exp'),
+    tau = SymReal(2 * PI)
+    npo = {'pi': pi, 'tau': tau, 'sin': _sym_fn(_np.sin, SIN, 'sin'), 'cos': _sym_fn(_np.cos, COS, 'cos'), 'exp': _sym_fn(_np.exp, EXP, 'exp'),
            'sqrt': _sym_sqrt(_np.sqrt)}
     return {'np': _Proxy(_np, npo), 'numpy': _Proxy(_np, npo),
-            'math': _Proxy(_math, {'pi': pi, 'sqrt': _sym_sqrt(_math.sqrt), 'log': _sym_log(_math.log),
+            'math': _Proxy(_math, {'pi': pi, 'tau': tau, 'sqrt': _sym_sqrt(_math.sqrt), 'log': _sym_log(_math.log),
                                    'ceil': _sym_round(_math.ceil, 'ceil'), 'floor': _sym_round(_math.floor, 'floor')})}
 
 
